@@ -3,6 +3,7 @@ import PromModel.Suites.RegexSuite
 import PromProofs.RegexDeriv
 import PromProofs.RegexSet
 import PromProofs.RegexNodes
+import PromProofs.RegexClear
 /-
   C17 — Optimized regex matching equals regular-expression semantics.
 
@@ -41,6 +42,24 @@ theorem setMatches_exact_base (fixed : Bool) (r : Re) (base : Str) (vs : List St
     (h : fsm fixed r base = some (vs, true)) (x : Str) :
     x ∈ vs ↔ ∃ t, x = base ++ t ∧ L r t :=
   (fsm_spec fixed r base vs h).2.2 true true x
+
+/-- `clearCapture` keeps the language. -/
+theorem clearCapture_preserves (r : Re) (s : Str) : L (clearCap r) s ↔ L r s := clearCap_L r s
+
+/-- `clearBeginEndText` on a top-level concatenation (the `\A` / `\z` stripping) keeps the language. -/
+theorem clearBeginEndText_preserves (a b : Re) (rest : List Re) (s : Str) :
+    L (clearBeginEndText (.cat (a :: b :: rest))) s ↔ L (.cat (a :: b :: rest)) s :=
+  clearBeginEndText_cat_L a b rest s
+
+/-- `findSetMatches` (= `clearBeginEndText` then `findSetMatchesInternal`) on a top-level concatenation: an exposed
+    (case-sensitive) set is exactly the language of the expression as given, anchors included. -/
+theorem findSetMatches_exact (fixed : Bool) (a b : Re) (rest : List Re) (vs : List Str)
+    (h : fsm fixed (clearBeginEndText (.cat (a :: b :: rest))) [] = some (vs, true)) (s : Str) :
+    L (.cat (a :: b :: rest)) s ↔ s ∈ vs :=
+  (clearBeginEndText_preserves a b rest s).symm.trans (setMatches_exact fixed _ vs h s)
+
+example : fsm true (clearBeginEndText (.cat [.bot, .lit false [97], .cls false [49, 50], .eot])) [] =
+    some ([[97, 49], [97, 50]], true) := by decide
 
 example : fsm true (.cat [.lit false [102, 111, 111], .alt [.empty false, .lit false [98, 97, 114]]]) [] =
     some ([[102, 111, 111], [102, 111, 111, 98, 97, 114]], true) := by decide
